@@ -164,7 +164,7 @@ pub fn run_script(tr: &mut Trace, run: u64, spec: &Value) -> (u64, bool) {
                     p.probe(tr, e);
                     let s = p.ep[e].hc.as_ref().unwrap().verif_snapshot();
                     tr.line(json!({"ev": "Quiesced", "ep": p.ep[e].name, "pending": p.ep[e].last_pending, "bufsize": p.ep[e].last_bufsize.min(2_000_000_000),
-                        "t": p.t_ms(), "tail_ms": p.t_ms() - start, "horizon_ms": max_ms.min(2_000_000_000), "reached": reached,
+                        "t": p.t_ms(), "tail_ms": p.t_ms() - start, "horizon_ms": max_ms.min(2_000_000_000), "reached": reached, "cut": false,
                         "rate": s.rate.send_rate, "rmode": s.rate.mode, "credit": s.flush_alloc.clamp(-2_000_000_000, 2_000_000_000)}));
                 }
             }
